@@ -51,6 +51,8 @@ VARIABLES
   keysSeen,                   \* keys written or deleted so far
   begunN, runN,               \* key -> number of Sets and Dels begun so far / in progress
   exitDue,                    \* key -> {<<value, begunN at DelBegin>>}: values a completed Del obliges to have exited
+  iterSnap,                   \* client -> time of its IterBegin
+  pendRej,                    \* hashes whose rejection by the policy still awaits its OnReject callback
   mcOpen, mcN,                \* UpdateMaxCost calls in progress / begun so far
   clrDirty,                   \* some other call overlapped the Clear/Close in progress
   clrN,                       \* number of Clear/Close begin and end events so far (to detect overlap with a Clear)
@@ -60,7 +62,7 @@ VARIABLES
 
 vars == <<l, tid, cfg, bad, vkey, vcost, vttl, vtb, vte, accepted, refused, exitN, evictN, rejectN,
           exitedAt, pendCb, getSnap, ended, delBefore, cand, waitCov, dead, owed, inClear, clearEver,
-          closed, openCalls, getsN, dropsN, getsAll, raised, maxMax, keysSeen, begunN, runN, exitDue, mcOpen, mcN, clrDirty, clrN, lateAdd, lastEv, polCur>>
+          closed, openCalls, getsN, dropsN, getsAll, raised, maxMax, keysSeen, begunN, runN, exitDue, iterSnap, pendRej, mcOpen, mcN, clrDirty, clrN, lateAdd, lastEv, polCur>>
 
 Empty == <<>>                                  \* the empty function
 Get0(f, x) == IF x \in DOMAIN f THEN f[x] ELSE 0
@@ -80,7 +82,7 @@ Init ==
   /\ exitedAt = {} /\ pendCb = Empty /\ getSnap = Empty /\ ended = Empty /\ delBefore = Empty
   /\ cand = Empty /\ waitCov = Empty /\ dead = Empty /\ owed = Empty /\ inClear = 0
   /\ clearEver = FALSE /\ closed = FALSE /\ openCalls = 0 /\ getsN = 0 /\ dropsN = 0 /\ getsAll = 0
-  /\ raised = FALSE /\ maxMax = 0 /\ keysSeen = {} /\ begunN = Empty /\ runN = Empty /\ exitDue = Empty /\ mcOpen = 0 /\ mcN = 0 /\ clrDirty = FALSE /\ clrN = 0 /\ lateAdd = {} /\ lastEv = "none" /\ polCur = NoPol
+  /\ raised = FALSE /\ maxMax = 0 /\ keysSeen = {} /\ begunN = Empty /\ runN = Empty /\ exitDue = Empty /\ iterSnap = Empty /\ pendRej = {} /\ mcOpen = 0 /\ mcN = 0 /\ clrDirty = FALSE /\ clrN = 0 /\ lateAdd = {} /\ lastEv = "none" /\ polCur = NoPol
 
 \* effective cost of a value as the policy sees it
 EffC(cost) == IF cost = 0 /\ cfg.costFn # 0 THEN cfg.costFn ELSE cost
@@ -97,7 +99,7 @@ Reset(e) ==
   /\ exitedAt' = {} /\ pendCb' = Empty /\ getSnap' = Empty /\ ended' = Empty /\ delBefore' = Empty
   /\ cand' = Empty /\ waitCov' = Empty /\ dead' = Empty /\ owed' = Empty /\ inClear' = 0
   /\ clearEver' = FALSE /\ closed' = FALSE /\ openCalls' = 0 /\ getsN' = 0 /\ dropsN' = 0 /\ getsAll' = 0
-  /\ raised' = FALSE /\ maxMax' = e.maxCost /\ keysSeen' = {} /\ begunN' = Empty /\ runN' = Empty /\ exitDue' = Empty /\ mcOpen' = 0 /\ mcN' = 0 /\ clrDirty' = FALSE /\ clrN' = 0 /\ lateAdd' = {} /\ polCur' = NoPol
+  /\ raised' = FALSE /\ maxMax' = e.maxCost /\ keysSeen' = {} /\ begunN' = Empty /\ runN' = Empty /\ exitDue' = Empty /\ iterSnap' = Empty /\ pendRej' = {} /\ mcOpen' = 0 /\ mcN' = 0 /\ clrDirty' = FALSE /\ clrN' = 0 /\ lateAdd' = {} /\ polCur' = NoPol
   \* pending callbacks of the previous trace must have been completed
   /\ bad' = bad \cup Flag("C04", \A g \in DOMAIN pendCb : pendCb[g] = 0, "OnEvict/OnReject not followed by OnExit of the same value")
 
@@ -124,7 +126,7 @@ Step(e) ==
          /\ clearEver' = (clearEver \/ inClear > 0)
          /\ UNCHANGED <<tid, cfg, bad, accepted, refused, exitN, evictN, rejectN, exitedAt, pendCb, getSnap, 
                  ended, delBefore, cand, waitCov, dead, owed, inClear, closed, getsN, dropsN, getsAll, 
-                 maxMax, exitDue, mcOpen, mcN, clrN, lateAdd, polCur>>
+                 maxMax, exitDue, iterSnap, pendRej, mcOpen, mcN, clrN, lateAdd, polCur>>
 
     [] e.ev = "SetEnd" ->
          /\ vte' = Put(vte, e.v, e.t)
@@ -140,7 +142,8 @@ Step(e) ==
                        \cup Flag("C15", ~closed \/ ~e.ok, "Set on a closed cache returned true")
          /\ UNCHANGED <<tid, cfg, vkey, vcost, vttl, vtb, exitN, evictN, rejectN, exitedAt, pendCb, getSnap, 
                  delBefore, cand, waitCov, dead, owed, inClear, clearEver, closed, getsN, getsAll, raised, 
-                 maxMax, keysSeen, begunN, exitDue, mcOpen, mcN, clrDirty, clrN, lateAdd, polCur>>
+                 maxMax, keysSeen, begunN, exitDue, iterSnap, pendRej, mcOpen, mcN, clrDirty, clrN, 
+                 lateAdd, polCur>>
 
     [] e.ev = "DelBegin" ->
          /\ clrDirty' = (clrDirty \/ inClear > 0)
@@ -154,7 +157,8 @@ Step(e) ==
          /\ clearEver' = (clearEver \/ inClear > 0)
          /\ UNCHANGED <<tid, cfg, bad, vkey, vcost, vttl, vtb, vte, accepted, refused, exitN, evictN, rejectN, 
                  exitedAt, pendCb, getSnap, ended, cand, waitCov, dead, owed, inClear, closed, getsN, 
-                 dropsN, getsAll, raised, maxMax, exitDue, mcOpen, mcN, clrN, lateAdd, polCur>>
+                 dropsN, getsAll, raised, maxMax, exitDue, iterSnap, pendRej, mcOpen, mcN, clrN, lateAdd, 
+                 polCur>>
 
     [] e.ev = "DelEnd" ->
          \* a Del that overlapped a Clear creates no obligation (Clear is not atomic w.r.t. other calls)
@@ -166,8 +170,8 @@ Step(e) ==
          /\ openCalls' = openCalls - 1
          /\ UNCHANGED <<tid, cfg, bad, vkey, vcost, vttl, vtb, vte, accepted, refused, exitN, evictN, rejectN, 
                  exitedAt, pendCb, getSnap, ended, delBefore, waitCov, dead, owed, inClear, clearEver, 
-                 closed, getsN, dropsN, getsAll, raised, maxMax, keysSeen, begunN, mcOpen, mcN, clrDirty, 
-                 clrN, lateAdd, polCur>>
+                 closed, getsN, dropsN, getsAll, raised, maxMax, keysSeen, begunN, iterSnap, pendRej, 
+                 mcOpen, mcN, clrDirty, clrN, lateAdd, polCur>>
 
     [] e.ev = "WaitBegin" ->
          /\ clrDirty' = (clrDirty \/ inClear > 0)
@@ -176,8 +180,8 @@ Step(e) ==
          /\ clearEver' = (clearEver \/ inClear > 0)
          /\ UNCHANGED <<tid, cfg, bad, vkey, vcost, vttl, vtb, vte, accepted, refused, exitN, evictN, rejectN, 
                  exitedAt, pendCb, getSnap, ended, delBefore, cand, dead, owed, inClear, closed, getsN, 
-                 dropsN, getsAll, raised, maxMax, keysSeen, begunN, runN, exitDue, mcOpen, mcN, clrN, 
-                 lateAdd, polCur>>
+                 dropsN, getsAll, raised, maxMax, keysSeen, begunN, runN, exitDue, iterSnap, pendRej, 
+                 mcOpen, mcN, clrN, lateAdd, polCur>>
 
     [] e.ev = "WaitEnd" ->
          \* a Wait that overlapped a Clear may have been released by Clear's drain: no guarantee then
@@ -196,8 +200,8 @@ Step(e) ==
                                    THEN "F9" ELSE "")
          /\ UNCHANGED <<tid, cfg, vkey, vcost, vttl, vtb, vte, accepted, refused, exitN, evictN, rejectN, 
                  exitedAt, pendCb, getSnap, ended, delBefore, cand, waitCov, owed, inClear, clearEver, 
-                 closed, getsN, dropsN, getsAll, raised, maxMax, keysSeen, begunN, runN, exitDue, mcOpen, 
-                 mcN, clrDirty, clrN, lateAdd, polCur>>
+                 closed, getsN, dropsN, getsAll, raised, maxMax, keysSeen, begunN, runN, exitDue, 
+                 iterSnap, pendRej, mcOpen, mcN, clrDirty, clrN, lateAdd, polCur>>
 
     [] e.ev = "GetBegin" ->
          /\ clrDirty' = (clrDirty \/ inClear > 0)
@@ -206,8 +210,8 @@ Step(e) ==
          /\ clearEver' = (clearEver \/ inClear > 0)
          /\ UNCHANGED <<tid, cfg, bad, vkey, vcost, vttl, vtb, vte, accepted, refused, exitN, evictN, rejectN, 
                  exitedAt, pendCb, ended, delBefore, cand, waitCov, dead, owed, inClear, closed, getsN, 
-                 dropsN, getsAll, raised, maxMax, keysSeen, begunN, runN, exitDue, mcOpen, mcN, clrN, 
-                 lateAdd, polCur>>
+                 dropsN, getsAll, raised, maxMax, keysSeen, begunN, runN, exitDue, iterSnap, pendRej, 
+                 mcOpen, mcN, clrN, lateAdd, polCur>>
 
     [] e.ev = "GetEnd" ->
          LET s == getSnap[e.c]  v == e.v IN
@@ -227,15 +231,15 @@ Step(e) ==
               \cup Flag("C15", ~closed \/ ~e.found, "Get on a closed cache returned a value")
          /\ UNCHANGED <<tid, cfg, vkey, vcost, vttl, vtb, vte, accepted, refused, exitN, evictN, rejectN, 
                  exitedAt, pendCb, getSnap, ended, delBefore, cand, waitCov, dead, owed, inClear, 
-                 clearEver, closed, dropsN, raised, maxMax, keysSeen, begunN, runN, exitDue, mcOpen, mcN, 
-                 clrDirty, clrN, lateAdd, polCur>>
+                 clearEver, closed, dropsN, raised, maxMax, keysSeen, begunN, runN, exitDue, iterSnap, 
+                 pendRej, mcOpen, mcN, clrDirty, clrN, lateAdd, polCur>>
 
     [] e.ev = "TTLBegin" ->
          /\ openCalls' = openCalls + 1
          /\ UNCHANGED <<tid, cfg, bad, vkey, vcost, vttl, vtb, vte, accepted, refused, exitN, evictN, rejectN, 
                  exitedAt, pendCb, getSnap, ended, delBefore, cand, waitCov, dead, owed, inClear, 
                  clearEver, closed, getsN, dropsN, getsAll, raised, maxMax, keysSeen, begunN, runN, 
-                 exitDue, mcOpen, mcN, clrDirty, clrN, lateAdd, polCur>>
+                 exitDue, iterSnap, pendRej, mcOpen, mcN, clrDirty, clrN, lateAdd, polCur>>
 
     [] e.ev = "TTLEnd" ->
          /\ openCalls' = openCalls - 1
@@ -246,25 +250,37 @@ Step(e) ==
          /\ UNCHANGED <<tid, cfg, vkey, vcost, vttl, vtb, vte, accepted, refused, exitN, evictN, rejectN, 
                  exitedAt, pendCb, getSnap, ended, delBefore, cand, waitCov, dead, owed, inClear, 
                  clearEver, closed, getsN, dropsN, getsAll, raised, maxMax, keysSeen, begunN, runN, 
-                 exitDue, mcOpen, mcN, clrDirty, clrN, lateAdd, polCur>>
+                 exitDue, iterSnap, pendRej, mcOpen, mcN, clrDirty, clrN, lateAdd, polCur>>
 
-    [] e.ev \in {"IterBegin", "IterEnd"} ->
-         /\ openCalls' = IF e.ev = "IterBegin" THEN openCalls + 1 ELSE openCalls - 1
-         /\ bad' = IF e.ev = "IterBegin" THEN bad
-                   ELSE bad \cup Flag("C13", \A i, j \in DOMAIN e.vals : i # j => e.vals[i] # e.vals[j],
-                                      "IterValues visited a value twice")
-                            \cup Flag("C15", ~closed \/ Len(e.vals) = 0, "IterValues on a closed cache yielded values")
+    [] e.ev = "IterBegin" ->
+         /\ openCalls' = openCalls + 1
+         /\ iterSnap' = Put(iterSnap, e.c, e.t)
+         /\ UNCHANGED <<tid, cfg, bad, vkey, vcost, vttl, vtb, vte, accepted, refused, exitN, evictN, rejectN, 
+                 exitedAt, pendCb, getSnap, ended, delBefore, cand, waitCov, dead, owed, inClear, 
+                 clearEver, closed, getsN, dropsN, getsAll, raised, maxMax, keysSeen, begunN, runN, 
+                 exitDue, pendRej, mcOpen, mcN, clrDirty, clrN, lateAdd, polCur>>
+
+    [] e.ev = "IterEnd" ->
+         /\ openCalls' = openCalls - 1
+         /\ bad' = bad \cup Flag("C13", \A i, j \in DOMAIN e.vals : i # j => e.vals[i] # e.vals[j],
+                                 "IterValues visited a value twice")
+                       \cup Flag("C13", "stopAt" \notin DOMAIN e \/ e.stopAt = 0 \/ Len(e.vals) <= e.stopAt,
+                                 "IterValues went on after the callback asked it to stop")
+                       \cup Flag("C15", ~closed \/ Len(e.vals) = 0, "IterValues on a closed cache yielded values")
+                       \cup Flag("C07", \A i \in DOMAIN e.vals : LET v == e.vals[i] IN
+                                     v \notin DOMAIN vttl \/ vttl[v] = 0 \/ vte[v] < 0 \/ iterSnap[e.c] <= vte[v] + vttl[v],
+                                 "IterValues yielded an item after its TTL had elapsed")
          /\ UNCHANGED <<tid, cfg, vkey, vcost, vttl, vtb, vte, accepted, refused, exitN, evictN, rejectN, 
                  exitedAt, pendCb, getSnap, ended, delBefore, cand, waitCov, dead, owed, inClear, 
                  clearEver, closed, getsN, dropsN, getsAll, raised, maxMax, keysSeen, begunN, runN, 
-                 exitDue, mcOpen, mcN, clrDirty, clrN, lateAdd, polCur>>
+                 exitDue, iterSnap, pendRej, mcOpen, mcN, clrDirty, clrN, lateAdd, polCur>>
 
     [] e.ev = "MaxCostBegin" ->
          /\ mcOpen' = mcOpen + 1 /\ mcN' = mcN + 1
          /\ UNCHANGED <<tid, cfg, bad, vkey, vcost, vttl, vtb, vte, accepted, refused, exitN, evictN, rejectN, 
                  exitedAt, pendCb, getSnap, ended, delBefore, cand, waitCov, dead, owed, inClear, 
                  clearEver, closed, openCalls, getsN, dropsN, getsAll, raised, maxMax, keysSeen, begunN, 
-                 runN, exitDue, clrDirty, clrN, lateAdd, polCur>>
+                 runN, exitDue, iterSnap, pendRej, clrDirty, clrN, lateAdd, polCur>>
 
     [] e.ev = "MaxCost" ->
          /\ mcOpen' = mcOpen - 1
@@ -273,7 +289,7 @@ Step(e) ==
          /\ UNCHANGED <<tid, cfg, bad, vkey, vcost, vttl, vtb, vte, accepted, refused, exitN, evictN, rejectN, 
                  exitedAt, pendCb, getSnap, ended, delBefore, cand, waitCov, dead, owed, inClear, 
                  clearEver, closed, openCalls, getsN, dropsN, getsAll, keysSeen, begunN, runN, exitDue, 
-                 mcN, clrDirty, clrN, lateAdd, polCur>>
+                 iterSnap, pendRej, mcN, clrDirty, clrN, lateAdd, polCur>>
 
     [] e.ev \in {"ClearBegin", "CloseBegin"} ->
          /\ owed' = Put(owed, e.c, {v \in accepted : Get0(exitN, v) = 0})
@@ -283,7 +299,8 @@ Step(e) ==
          /\ openCalls' = openCalls + 1
          /\ UNCHANGED <<tid, cfg, bad, vkey, vcost, vttl, vtb, vte, accepted, refused, exitN, evictN, rejectN, 
                  exitedAt, pendCb, getSnap, ended, delBefore, cand, waitCov, dead, closed, getsN, dropsN, 
-                 getsAll, raised, maxMax, keysSeen, begunN, runN, exitDue, mcOpen, mcN, lateAdd, polCur>>
+                 getsAll, raised, maxMax, keysSeen, begunN, runN, exitDue, iterSnap, pendRej, mcOpen, mcN, 
+                 lateAdd, polCur>>
 
     [] e.ev \in {"ClearEnd", "CloseEnd"} ->
          /\ inClear' = inClear - 1 /\ clrN' = clrN + 1
@@ -305,8 +322,8 @@ Step(e) ==
                                    THEN "F9" ELSE "")
          /\ UNCHANGED <<tid, cfg, vkey, vcost, vttl, vtb, vte, accepted, refused, exitN, evictN, rejectN, 
                  exitedAt, pendCb, getSnap, ended, delBefore, cand, waitCov, dead, owed, clearEver, 
-                 getsAll, raised, maxMax, keysSeen, begunN, runN, exitDue, mcOpen, mcN, clrDirty, lateAdd, 
-                 polCur>>
+                 getsAll, raised, maxMax, keysSeen, begunN, runN, exitDue, iterSnap, pendRej, mcOpen, mcN, 
+                 clrDirty, lateAdd, polCur>>
 
     [] e.ev = "Exit" ->
          /\ exitN' = Put(exitN, e.v, Get0(exitN, e.v) + 1)
@@ -317,13 +334,14 @@ Step(e) ==
                        \cup Flag("C04", Get0(pendCb, e.g) \in {0, e.v}, "OnEvict/OnReject not followed by OnExit of the same value")
          /\ UNCHANGED <<tid, cfg, vkey, vcost, vttl, vtb, vte, accepted, refused, evictN, rejectN, getSnap, 
                  ended, delBefore, cand, waitCov, dead, owed, inClear, clearEver, closed, openCalls, 
-                 getsN, dropsN, getsAll, raised, maxMax, keysSeen, begunN, runN, exitDue, mcOpen, mcN, 
-                 clrDirty, clrN, lateAdd, polCur>>
+                 getsN, dropsN, getsAll, raised, maxMax, keysSeen, begunN, runN, exitDue, iterSnap, 
+                 pendRej, mcOpen, mcN, clrDirty, clrN, lateAdd, polCur>>
 
     [] e.ev \in {"Evict", "Reject"} ->
          /\ IF e.ev = "Evict" THEN evictN' = Put(evictN, e.v, Get0(evictN, e.v) + 1) /\ UNCHANGED rejectN
                               ELSE rejectN' = Put(rejectN, e.v, Get0(rejectN, e.v) + 1) /\ UNCHANGED evictN
          /\ pendCb' = Put(pendCb, e.g, e.v)
+         /\ pendRej' = IF e.ev = "Reject" THEN pendRej \ {e.h} ELSE pendRej
          /\ bad' = bad \cup Flag("C04", (IF e.ev = "Evict" THEN Get0(evictN, e.v) ELSE Get0(rejectN, e.v)) = 0,
                                  "OnEvict/OnReject fired twice for one value")
                        \cup Flag("C04", e.v \notin refused, "a value whose Set returned false was passed to a callback")
@@ -343,13 +361,13 @@ Step(e) ==
                                    THEN "F4" ELSE "")
          /\ UNCHANGED <<tid, cfg, vkey, vcost, vttl, vtb, vte, accepted, refused, exitN, exitedAt, getSnap, 
                  ended, delBefore, cand, waitCov, dead, owed, inClear, clearEver, closed, openCalls, 
-                 getsN, dropsN, getsAll, raised, maxMax, keysSeen, begunN, runN, exitDue, mcOpen, mcN, 
-                 clrDirty, clrN, lateAdd, polCur>>
+                 getsN, dropsN, getsAll, raised, maxMax, keysSeen, begunN, runN, exitDue, iterSnap, 
+                 mcOpen, mcN, clrDirty, clrN, lateAdd, polCur>>
 
     [] e.ev = "Tick" -> UNCHANGED <<tid, cfg, bad, vkey, vcost, vttl, vtb, vte, accepted, refused, exitN, evictN, rejectN, 
                  exitedAt, pendCb, getSnap, ended, delBefore, cand, waitCov, dead, owed, inClear, 
                  clearEver, closed, openCalls, getsN, dropsN, getsAll, raised, maxMax, keysSeen, begunN, 
-                 runN, exitDue, mcOpen, mcN, clrDirty, clrN, lateAdd, polCur>>
+                 runN, exitDue, iterSnap, pendRej, mcOpen, mcN, clrDirty, clrN, lateAdd, polCur>>
 
     [] e.ev = "Quiesce" ->
          LET probeVals == {e.probe[i][2] : i \in DOMAIN e.probe} \ {0}
@@ -404,11 +422,11 @@ Step(e) ==
          /\ UNCHANGED <<tid, cfg, vkey, vcost, vttl, vtb, vte, accepted, refused, exitN, evictN, rejectN, 
                  exitedAt, pendCb, getSnap, ended, delBefore, cand, waitCov, dead, owed, inClear, 
                  clearEver, closed, openCalls, getsN, dropsN, getsAll, raised, maxMax, keysSeen, begunN, 
-                 runN, exitDue, mcOpen, mcN, clrDirty, clrN, lateAdd, polCur>>
+                 runN, exitDue, iterSnap, pendRej, mcOpen, mcN, clrDirty, clrN, lateAdd, polCur>>
 
     [] e.ev = "Added" ->       \* white-box: policy.Add returned (added, number of victims, accounting afterwards)
-         /\ bad' = bad \cup Flag("C03", ~e.added \/ raised \/ mcOpen # 0 \/ mcN # e.mcb \/ e.used <= e.max, "an admission left the accounted cost above MaxCost")
-                       \cup Flag("C03", ~e.added \/ e.cost <= e.max \/ raised \/ mcOpen # 0 \/ mcN # e.mcb, "an item larger than MaxCost was admitted")
+         /\ bad' = bad \cup Flag("C03", ~e.added \/ mcOpen # 0 \/ mcN # e.mcb \/ e.used <= e.max, "an admission left the accounted cost above MaxCost")
+                       \cup Flag("C03", ~e.added \/ e.cost <= e.max \/ mcOpen # 0 \/ mcN # e.mcb, "an item larger than MaxCost was admitted")
                        \cup Flag("C09", polCur = NoPol \/ polCur.h # e.h \/ polCur.mc # e.mcb \/ ~polCur.fits \/ (e.added /\ e.nv = 0),
                                  "an item that fits in the remaining capacity was not admitted without eviction")
                        \cup Flag("C09", polCur = NoPol \/ polCur.h # e.h \/ ~e.added \/ ~polCur.lower,
@@ -416,24 +434,27 @@ Step(e) ==
                        \cup Flag("C09", polCur = NoPol \/ polCur.h # e.h \/ polCur.mc # e.mcb \/ e.added \/ polCur.has \/ polCur.big \/ polCur.lower,
                                  "an item was turned away although its estimate is not lower than the least-frequent candidate's")
          /\ polCur' = NoPol
+         /\ pendRej' = IF e.added \/ ~cfg.cb THEN pendRej ELSE pendRej \cup {e.h}
          /\ lateAdd' = IF e.added /\ \E u \in DOMAIN vkey : HashOfK(vkey[u]) = e.h /\ vttl[u] > 0 /\ Get0(exitN, u) = 0
                                                           /\ e.t > vtb[u] + vttl[u]
                         THEN lateAdd \cup {e.h} ELSE lateAdd
          /\ UNCHANGED <<tid, cfg, vkey, vcost, vttl, vtb, vte, accepted, refused, exitN, evictN, rejectN, 
                  exitedAt, pendCb, getSnap, ended, delBefore, cand, waitCov, dead, owed, inClear, 
                  clearEver, closed, openCalls, getsN, dropsN, getsAll, raised, maxMax, keysSeen, begunN, 
-                 runN, exitDue, mcOpen, mcN, clrDirty, clrN>>
+                 runN, exitDue, iterSnap, mcOpen, mcN, clrDirty, clrN>>
 
     [] e.ev = "PolEnter" ->    \* white-box, under the policy lock: the state the decision starts from
+         /\ bad' = bad \cup Flag("C09", pendRej = {}, "an item turned away by the policy was not reported through OnReject")
+         /\ pendRej' = {}
          /\ polCur' = [h |-> e.h, has |-> e.has, big |-> e.cost > e.max, fits |-> (~e.has /\ e.cost <= e.max /\ e.max - (e.used + e.cost) >= 0),
                        lower |-> FALSE, inc |-> e.inc,
                        \* MaxCost is read without the policy lock: the record is usable only if no UpdateMaxCost was in
                        \* progress when it was taken (harness counters sampled before the read)
                        mc |-> IF e.mcb = e.mce THEN e.mcb ELSE -1]
-         /\ UNCHANGED <<tid, cfg, bad, vkey, vcost, vttl, vtb, vte, accepted, refused, exitN, evictN, rejectN, 
+         /\ UNCHANGED <<tid, cfg, vkey, vcost, vttl, vtb, vte, accepted, refused, exitN, evictN, rejectN, 
                  exitedAt, pendCb, getSnap, ended, delBefore, cand, waitCov, dead, owed, inClear, 
                  clearEver, closed, openCalls, getsN, dropsN, getsAll, raised, maxMax, keysSeen, begunN, 
-                 runN, exitDue, mcOpen, mcN, clrDirty, clrN, lateAdd>>
+                 runN, exitDue, iterSnap, mcOpen, mcN, clrDirty, clrN, lateAdd>>
 
     [] e.ev = "PolRound" ->    \* white-box, under the policy lock: one sampling round
          LET ests == {e.sample[i][2] : i \in DOMAIN e.sample}
@@ -450,7 +471,7 @@ Step(e) ==
          /\ UNCHANGED <<tid, cfg, vkey, vcost, vttl, vtb, vte, accepted, refused, exitN, evictN, rejectN, 
                  exitedAt, pendCb, getSnap, ended, delBefore, cand, waitCov, dead, owed, inClear, 
                  clearEver, closed, openCalls, getsN, dropsN, getsAll, raised, maxMax, keysSeen, begunN, 
-                 runN, exitDue, mcOpen, mcN, clrDirty, clrN, lateAdd>>
+                 runN, exitDue, iterSnap, pendRej, mcOpen, mcN, clrDirty, clrN, lateAdd>>
 
     [] e.ev = "RingCheck" ->   \* the Get-frequency pipeline driven on its own (harness/cache/ring_test.go.txt)
          /\ bad' = bad \cup Flag("C17", e.kept + e.dropped <= e.gets, "GetsKept+GetsDropped exceeds the number of Gets")
@@ -459,7 +480,7 @@ Step(e) ==
          /\ UNCHANGED <<tid, cfg, vkey, vcost, vttl, vtb, vte, accepted, refused, exitN, evictN, rejectN, 
                  exitedAt, pendCb, getSnap, ended, delBefore, cand, waitCov, dead, owed, inClear, 
                  clearEver, closed, openCalls, getsN, dropsN, getsAll, raised, maxMax, keysSeen, begunN, 
-                 runN, exitDue, mcOpen, mcN, clrDirty, clrN, lateAdd, polCur>>
+                 runN, exitDue, iterSnap, pendRej, mcOpen, mcN, clrDirty, clrN, lateAdd, polCur>>
 
     [] e.ev \in {"Leak", "Panic", "Hang", "Race"} ->
          /\ bad' = bad \cup Flag("C08", FALSE, e.ev \o ": " \o e.what)
@@ -467,7 +488,7 @@ Step(e) ==
          /\ UNCHANGED <<tid, cfg, vkey, vcost, vttl, vtb, vte, accepted, refused, exitN, evictN, rejectN, 
                  exitedAt, pendCb, getSnap, ended, delBefore, cand, waitCov, dead, owed, inClear, 
                  clearEver, closed, openCalls, getsN, dropsN, getsAll, raised, maxMax, keysSeen, begunN, 
-                 runN, exitDue, mcOpen, mcN, clrDirty, clrN, lateAdd, polCur>>
+                 runN, exitDue, iterSnap, pendRej, mcOpen, mcN, clrDirty, clrN, lateAdd, polCur>>
 
 Next == /\ l <= Len(Trace)
         /\ l' = l + 1
